@@ -445,7 +445,7 @@ where
         let output_block = ctx.lock().new_block(
             Start::single(iter_block.id, iter_block.iteration_ctx.last().cloned()),
             batch_mode,
-            Default::default(),
+            input_block.iteration_ctx.clone(),
         );
         let output_id = output_block.id;
 
